@@ -71,4 +71,38 @@ theorem ins_nonacp (t : Tx) (idx : Nat) (sc : Bytes) {f : Nat} (h : validFlag f 
     funext ⟨a, b⟩; rfl
   rw [e2, this, optConcat_map_some, List.mapIdx_eq_zipIdx_map, List.flatMap_map]
 
+/-! ### taproot: the refusals added by `fixes/fix-taproot-hashtype.diff` -/
+
+/-- below 256, a hash type that BIP341 does not define is either refused by `SIGHASH.check` or is 0x80 -/
+theorem check_of_invalidTaprootFlag (f : Nat) (h : f < 256) (hv : validTaprootFlag f = false) :
+    sighashCheck f = none ∨ sighashCheck f = some (0, true) := by
+  revert f; decide +kernel
+
+/-- `sighash_taproot` refuses every hash type outside BIP341's seven (any natural number, 0x80 included) -/
+theorem sighashTaproot_invalid_flag (sha : Bytes → Bytes) (t : Tx) (idx : Nat) (spks : List Bytes)
+    (values : List Nat) (f e : Nat) (a s : Option Bytes) (lv : Nat) (cs : Option Nat)
+    (hv : validTaprootFlag f = false) :
+    sighashTaproot sha t idx spks values f e a s lv cs = none := by
+  unfold sighashTaproot
+  split; · rfl
+  split; · rfl
+  split; · rfl
+  rcases Nat.lt_or_ge f 256 with h | h
+  · rcases check_of_invalidTaprootFlag f h hv with hc | hc <;> simp [hc]
+  · split
+    · rfl
+    · split
+      · rfl
+      · simp
+
+/-- `sighash_taproot` refuses a list of spent scripts whose length is not the number of inputs -/
+theorem sighashTaproot_spks_length (sha : Bytes → Bytes) (t : Tx) (idx : Nat) (spks : List Bytes)
+    (values : List Nat) (f e : Nat) (a s : Option Bytes) (lv : Nat) (cs : Option Nat)
+    (hs : spks.length ≠ t.vin.length) :
+    sighashTaproot sha t idx spks values f e a s lv cs = none := by
+  unfold sighashTaproot
+  split; · rfl
+  split; · rfl
+  simp
+
 end Embit
